@@ -22,6 +22,9 @@ import (
 	"go/ast"
 	"go/constant"
 	"go/token"
+	"go/types"
+	"os"
+	"path/filepath"
 	"sort"
 	"strings"
 
@@ -284,6 +287,88 @@ func tokPairDiff(p *packages.Package) (string, string) {
 	return a, b
 }
 
+// tokConfigLines reads api/config.go config(): every statement `X = setYConfig("KEY", DEFAULT)` as
+// (assigned variable, setter, key, default expression as written).  Anything else in the body is fatal:
+// the model of config() is an interpreter over exactly these lines.
+func tokConfigLines(p *packages.Package) [][4]string {
+	fd := tokFunc(p, "config")
+	var out [][4]string
+	for _, st := range fd.Body.List {
+		as, ok := st.(*ast.AssignStmt)
+		if !ok || as.Tok != token.ASSIGN || len(as.Lhs) != 1 || len(as.Rhs) != 1 {
+			fatal("api.config: statement at %v is not `X = setYConfig(KEY, DEFAULT)`", p.Fset.Position(st.Pos()))
+		}
+		lhs, ok := as.Lhs[0].(*ast.Ident)
+		call, ok2 := as.Rhs[0].(*ast.CallExpr)
+		if !ok || !ok2 || len(call.Args) != 2 {
+			fatal("api.config: statement at %v is not `X = setYConfig(KEY, DEFAULT)`", p.Fset.Position(st.Pos()))
+		}
+		setter := tokCallName(call)
+		if setter != "setStringConfig" && setter != "setBytesConfig" && setter != "setIntConfig" {
+			fatal("api.config: unknown setter %q at %v", setter, p.Fset.Position(st.Pos()))
+		}
+		tv := p.TypesInfo.Types[call.Args[0]]
+		if tv.Value == nil || tv.Value.Kind() != constant.String {
+			fatal("api.config: key is not a string constant at %v", p.Fset.Position(st.Pos()))
+		}
+		out = append(out, [4]string{lhs.Name, setter, constant.StringVal(tv.Value), types.ExprString(call.Args[1])})
+	}
+	return out
+}
+
+// tokIniAPI: the [go-pttbbs:api] section of an ini file as viper (gopkg.in/ini.v1, default options) reads it:
+// `#`/`;` start a comment anywhere, keys are case-insensitive, surrounding quotes are dropped.
+// The harness compares the result with what viper + api.InitConfig() really produce (op `useini`).
+func tokIniAPI(path string) [][2]string {
+	b, err := os.ReadFile(path)
+	if err != nil {
+		fatal("%v", err)
+	}
+	var out [][2]string
+	section := ""
+	for _, line := range strings.Split(string(b), "\n") {
+		line = strings.TrimSpace(line)
+		if line == "" || line[0] == '#' || line[0] == ';' {
+			continue
+		}
+		if line[0] == '[' && strings.HasSuffix(line, "]") {
+			section = strings.ToLower(strings.TrimSpace(line[1 : len(line)-1]))
+			continue
+		}
+		i := strings.IndexAny(line, "=:")
+		if i < 0 || section != "go-pttbbs:api" {
+			continue
+		}
+		key := strings.ToLower(strings.TrimSpace(line[:i]))
+		val := strings.TrimSpace(line[i+1:])
+		if len(val) > 0 && (val[0] == '"' || val[0] == '\'' || val[0] == '`') {
+			if j := strings.IndexByte(val[1:], val[0]); j >= 0 {
+				val = val[1 : 1+j]
+			}
+		} else if j := strings.IndexAny(val, "#;"); j >= 0 {
+			val = strings.TrimSpace(val[:j])
+		}
+		out = append(out, [2]string{key, val})
+	}
+	return out
+}
+
+// the ini files shipped with the repository (relative paths, sorted)
+func tokShippedInis(repo string) []string {
+	var out []string
+	for _, pat := range []string{"docs/config/*.ini", "testcase/*.ini", "initgin/testcase/*.ini"} {
+		ms, _ := filepath.Glob(filepath.Join(repo, pat))
+		for _, m := range ms {
+			rel, _ := filepath.Rel(repo, m)
+			out = append(out, rel)
+		}
+	}
+	sort.Strings(out)
+	return out
+}
+
+func tokNatListLit(bs []string) string { return "[" + strings.Join(bs, ", ") + "]" }
+
 func tokLeanStr(s string) string { return fmt.Sprintf("%q", s) }
 
 func tokStrList(xs []string) string {
@@ -351,6 +436,75 @@ func init() {
 		a, b := tokPairDiff(p)
 		lf.raw(fmt.Sprintf("/-- api/refresh.go: expectedDiffExpireTS = %s - %s -/\n", a, b))
 		lf.raw(fmt.Sprintf("def pairDiff : Int := %s - %s\n", ttlLean[a], ttlLean[b]))
+		lf.raw(fmt.Sprintf("def pairDiffMinuendName : String := %s\ndef pairDiffSubtrahendName : String := %s\n\n", tokLeanStr(a), tokLeanStr(b)))
+
+		// ---- api/config.go: what InitConfig() makes of the variables ----------------------------
+		lf.raw("/-! api/config.go config(): `X = setYConfig(\"KEY\", DEFAULT)`, in source order:\n    (assigned variable, setter, key, key as viper looks it up, default expression as written) -/\n")
+		lines := tokConfigLines(p)
+		lf.raw("def configLines : List (String × String × String × String × String) := [")
+		for i, l := range lines {
+			if i > 0 {
+				lf.raw(",")
+			}
+			lf.raw(fmt.Sprintf("\n  (%s, %s, %s, %s, %s)", tokLeanStr(l[0]), tokLeanStr(l[1]), tokLeanStr(l[2]), tokLeanStr(strings.ToLower(l[2])), tokLeanStr(l[3])))
+		}
+		lf.raw("]\n\n")
+		lf.raw("/-- the package-level variables of api/00-config.go that config() assigns or reads, with their initial\n    values as bytes (an int as its decimal digits) -/\n")
+		lf.raw("def initialVars : List (String × List Nat) := [")
+		seen := map[string]bool{}
+		first := true
+		addVar := func(name string) {
+			if seen[name] {
+				return
+			}
+			obj := p.Types.Scope().Lookup(name)
+			v, ok := obj.(*types.Var)
+			if !ok {
+				return // not a package-level variable: the model's interpreter refuses the line
+			}
+			seen[name] = true
+			var bs []string
+			switch t := v.Type().Underlying().(type) {
+			case *types.Basic:
+				if t.Info()&types.IsInteger != 0 {
+					bs = bytesOf(fmt.Sprint(tokVarInt(p, name)))
+				} else if t.Info()&types.IsString != 0 {
+					bs = bytesOf(tokVarString(p, name))
+				} else {
+					return
+				}
+			case *types.Slice:
+				bs = tokVarBytes(p, name)
+			default:
+				return
+			}
+			if !first {
+				lf.raw(",")
+			}
+			first = false
+			lf.raw(fmt.Sprintf("\n  (%s, %s)", tokLeanStr(name), tokNatListLit(bs)))
+		}
+		for _, l := range lines {
+			addVar(l[0])
+			addVar(l[3])
+		}
+		lf.raw("]\n\n")
+		lf.raw("/-! the ini files shipped with the repository: their [go-pttbbs:api] section as viper reads it (lower-case keys) -/\n")
+		lf.raw("def iniFiles : List (String × List (String × List Nat)) := [")
+		for i, rel := range tokShippedInis(repo) {
+			if i > 0 {
+				lf.raw(",")
+			}
+			lf.raw(fmt.Sprintf("\n  (%s, [", tokLeanStr(rel)))
+			for j, kv := range tokIniAPI(filepath.Join(repo, rel)) {
+				if j > 0 {
+					lf.raw(", ")
+				}
+				lf.raw(fmt.Sprintf("(%s, %s)", tokLeanStr(kv[0]), tokNatListLit(bytesOf(kv[1]))))
+			}
+			lf.raw("])")
+		}
+		lf.raw("]\n")
 		lf.write(out)
 	})
 }
